@@ -589,6 +589,11 @@ def main():
                  "Definition guard_across_await : list string := [%s]." % q("TRANSLATOR-SHAPE-ERROR: %s" % e),
                  "Definition chan_lock_sites : N := 0%N.",
                  "Definition chan_lock_nested : list string := [%s]." % q("TRANSLATOR-SHAPE-ERROR: %s" % e), ""])
+        try:
+            files[os.path.join(VERIF, "coq/Gen/LockPrograms.v")] = locklint.gen_programs(REPO)
+        except locklint.Shape as e:
+            warnings.append("lock programs: %s" % e)
+            files[os.path.join(VERIF, "coq/Gen/LockPrograms.v")] = locklint.programs_fallback(e)
         import headroom
         try:
             files[os.path.join(VERIF, "coq/Gen/Headroom.v")] = headroom.gen(read)
